@@ -118,6 +118,15 @@ def coverage_pairs():
 COVP = coverage_pairs()
 
 
+def ladder_text(tier):
+    return ("; size ladder n in %s: 6 generated columns x 3 coverage pairs (boxplot_stats), frames / series / arrays "
+            "(Boxplot), 3 columns x 2 unequal groupings (by=), Violin frames of 3 / 2 / 1 columns; pareto 5-7 generated "
+            "point sets x d in {1,2,3,5} x both orientations; standard_normal 4 generated vectors x 5 rank methods x 3 "
+            "cst (+sorted); lhs 4 structured permutations x 4 ranges x 4 jitter patterns, 3 parameters; ppos x 7 cst; "
+            "layout variants %s (1-D), %s (2-D), lhs %s on the ladder cases" % (
+                LADDER if tier == "quick" else LADDER + LADDER_X, LAY1, LAY2, LHS_LAYOUTS))
+
+
 def bound_text(tier, seed):
     if tier == "quick":
         return ("lhs n<=5 all n! perms x 4 ranges x (3+6n) jitter patterns, 2-3 params n<=3 all perm tuples, n=8..300 "
@@ -125,12 +134,12 @@ def bound_text(tier, seed):
                 "<=2 deviations, 60x5 <=1; columns over {0,1,2.5,NaN,+inf,-inf}: boxplot_stats len 0..4 x 11 coverage "
                 "pairs, len 5 x 3 pairs; Boxplot frames and Violin len 0..5 (len 6 without -inf), default coverage; "
                 "by: len 5 groups (4,1) interleaved (no -inf) and contiguous ({0,1,2.5,NaN}), len 9/10 <=2 deviations "
-                "over {NaN,+inf,1}; 300-value columns <=1 deviation; +seed letter len<=4")
+                "over {NaN,+inf,1}; 300-value columns <=1 deviation; +seed letter len<=4" + ladder_text(tier))
     return ("lhs n<=7 all n! perms x 4 ranges x (3+6n) jitter patterns, 2-3 params n<=4/3 all perm tuples, n=8..300 "
             "structured; ppos n<=300 x 7 cst; standard_normal len<=6; pareto n*d<=12 over {0,1,NaN}, n*d<=8 over "
             "{0,1,2,NaN}, (20x3,30x2,60x2,25x5) <=2 deviations, 60x5 <=1; columns len 0..6 x 11 coverage pairs "
             "(boxplot_stats), Boxplot frames x 4 pairs, Violin len 0..6 (+jitter corners len<=5), by: len 6 x 5 "
-            "layouts, len 5 x 3 layouts, len 9/10 <=2 deviations; +seed letter len<=5")
+            "layouts, len 5 x 3 layouts, len 9/10 <=2 deviations; +seed letter len<=5" + ladder_text(tier))
 
 
 # --------------------------------------------------------------------------- encoding
